@@ -208,7 +208,10 @@ def _get_word_size(circuit: Circuit) -> int:
         return 1
     else:
         return max(
-            len(circuit.inputs), len(circuit.outputs), circuit.size - 1
+            len(circuit.inputs),
+            len(circuit.outputs),
+            circuit.size - 1,
+            circuit.gates_number([gate.INPUT]),
         ).bit_length()
 
 
